@@ -5,11 +5,15 @@ from props.common import TRUSTED_BASE, ASSUMPTIONS as _A
 
 ID = 'C11'
 LEAN_MODULES = ['HidVerif.Props.C11']
-THEOREMS = ['HidVerif.Props.C11.levels_documented', 'HidVerif.Props.C11.levels_disjoint']
+THEOREMS = ['HidVerif.Props.C11.levels_documented', 'HidVerif.Props.C11.levels_disjoint', 'HidVerif.Props.C11.documented_grouping',
+            'HidVerif.Props.C11.reachable_contexts_ok', 'HidVerif.Hid.Parse.round_trip']
 TRUSTED = TRUSTED_BASE + ['Hid/Parser.lean (parser model over the regenerated operator tables) tied by the parse suite',
                           'the reference grouping in harness/props/C11.py: an independent precedence-climbing implementation of the README table']
-ASSUMPTIONS = _A + ['the print/parse round trip for all trees is validated (all operator pairs and triples exhaustively, random trees), '
-                    'not yet proved by induction']
+ASSUMPTIONS = _A + ['documented_grouping is proved for the parser MODEL (Hid/Parser.lean) on token sequences; that the model is the real '
+                    'parser is the parse suite, and the round trip through the real lexer and parser is executed on all operator pairs and '
+                    'triples and random trees',
+                    'the proved fragment has literals, variables, indexing, .length, prefix operators, scalar `is` casts, the five binary '
+                    'levels and arbitrary parentheses; calls, array literals, array casts and ?? occur only in the executed round trip']
 RULE = ('every pair and triple of binary operators, with unary operators, `is`, postfix forms and parentheses mixed in, and random trees to '
         'depth 6: the tree returned by hidc.parser.parse must equal the tree of an independent precedence-climbing parser, and printing a '
         'tree with minimal parentheses and parsing it must give the tree back; parse suite on all texts; non-trivial = expression with '
